@@ -133,7 +133,7 @@ def _match(lookup_value, lookup_array, match_type=1):
             return val == lookup_value
 
     for i, value in enumerate(lookup_array, 1):
-        if value not in ERROR_CODES:
+        if value is not None and value not in ERROR_CODES:
             value = ExcelCmp(value)
             if value.cmp_type == lookup_value.cmp_type and compare(i, value):
                 break
